@@ -504,6 +504,80 @@ example : (run check [cbHello] (St.init [] 100) [⟨1, [104, 101, 108]⟩, ⟨1,
 example : (run check [{ cbHello with complete := false, once := true, resetOutput := false }]
     (St.init [] 100) [⟨1, helloWorld⟩, ⟨1, []⟩]).outcome = .onceError := by decide
 
+/-! ## the whole operation and its faults -/
+
+/-- without faults the operation is the callback loop from the initial state: every theorem above
+applies to `SendWithCallbacks` itself -/
+theorem sendOp_no_faults (cbs : List Callback) (fired : List Nat) (timeout : Nat) (input : Bytes)
+    (l : List Arrival) :
+    (sendOp check cbs fired timeout input ⟨false, false, none⟩ l).events =
+        (run check cbs (St.init fired timeout) l).events ∧
+    (sendOp check cbs fired timeout input ⟨false, false, none⟩ l).outcome =
+        .loop (run check cbs (St.init fired timeout) l).outcome ∧
+    (sendOp check cbs fired timeout input ⟨false, false, none⟩ l).fired =
+        (run check cbs (St.init fired timeout) l).fired := by
+  simp [sendOp]
+
+/-- a refused operation option or a failing input write: no callback runs, nothing is consumed,
+the once flags are untouched, and (for the option error) nothing was written -/
+theorem setup_fault_runs_nothing (cbs : List Callback) (fired : List Nat) (timeout : Nat) (input : Bytes)
+    (f : OpFaults) (l : List Arrival) (h : f.optErr = true ∨ (input ≠ [] ∧ f.writeFails = true)) :
+    (sendOp check cbs fired timeout input f l).events = [] ∧
+    (sendOp check cbs fired timeout input f l).fired = fired ∧
+    (sendOp check cbs fired timeout input f l).wrote = false ∧
+    ((sendOp check cbs fired timeout input f l).outcome = .optionError ∨
+     (sendOp check cbs fired timeout input f l).outcome = .writeError) := by
+  unfold sendOp
+  by_cases ho : f.optErr = true
+  · simp [ho]
+  · rcases h with h | ⟨hne, hw⟩
+    · exact absurd h ho
+    · have : input.isEmpty = false := by cases input <;> simp_all
+      simp [ho, hw, this]
+
+/-- a history during which the operation keeps polling ends, if nothing else arrives, in a timeout -/
+theorem finalState_some_timeout (cbs : List Callback) (s s' : St) (l : List Arrival)
+    (h : finalState check cbs s l = some s') : (run check cbs s l).outcome = .timeout := by
+  induction l generalizing s with
+  | nil => simp [run]
+  | cons a l ih =>
+    unfold finalState at h
+    cases hst : step check cbs s a with
+    | done f ev o => simp [hst] at h
+    | cont s1 ev =>
+      simp only [hst] at h
+      rw [run_cont l hst]
+      exact ih s1 h
+
+/-- a poll error ends the operation with that error: the callbacks that ran before it ran exactly
+as in the undisturbed dialogue (same callbacks, same arguments, same once flags), none runs after
+it; an error that would come only after the operation has returned, or after the stage deadline,
+changes nothing -/
+theorem read_error_ends_operation (cbs : List Callback) (fired : List Nat) (timeout : Nat)
+    (input : Bytes) (l : List Arrival) (gap : Nat) :
+    let r := sendOp check cbs fired timeout input ⟨false, false, some gap⟩ l
+    let u := run check cbs (St.init fired timeout) l
+    r.events = u.events ∧ r.fired = u.fired ∧
+    (∀ s', finalState check cbs (St.init fired timeout) l = some s' → s'.el + gap < s'.t →
+        r.outcome = .readError) ∧
+    (finalState check cbs (St.init fired timeout) l = none → r.outcome = .loop u.outcome) ∧
+    (∀ s', finalState check cbs (St.init fired timeout) l = some s' → s'.t ≤ s'.el + gap →
+        r.outcome = .loop .timeout) := by
+  simp only [sendOp]
+  cases hfs : finalState check cbs (St.init fired timeout) l with
+  | none => simp
+  | some s' =>
+    have hto := finalState_some_timeout cbs _ s' l hfs
+    by_cases hd : s'.t ≤ s'.el + gap
+    · simp [hd, hto]
+      try omega
+    · simp [hd]
+      try omega
+
+/-- concrete instance: `hel` arrives, then the transport fails: read error, no callback ran -/
+example : (sendOp check [cbHello] [] 100 [120] ⟨false, false, some 1⟩ [⟨1, [104, 101, 108]⟩]).outcome =
+    .readError := by decide
+
 /-! ## tie to the source: translated body = model (regenerated on every run) -/
 
 /-- the body of `(*Callback).check` as the translator renders it from the current source
